@@ -204,6 +204,9 @@ type Suite struct {
 	distinct  int
 	Dist      map[string]int // input distribution counters
 	ImplFails []ImplFail
+	// BrokenTies: the engine itself found that the model can no longer be compared with the implementation
+	// (e.g. an internal write pattern changed); not a violation of a property
+	BrokenTies []string
 	samples   []interface{}
 	Rule      string
 }
@@ -255,6 +258,9 @@ func (s *Suite) Add(coq string, desc interface{}, nontrivial bool) int {
 func (s *Suite) Fail(id int, what string, c interface{}, class string) {
 	s.ImplFails = append(s.ImplFails, ImplFail{ID: id, What: what, Case: c, Class: class})
 }
+
+// Broken records that a correspondence can no longer be evaluated (reported by ./check as a broken tie).
+func (s *Suite) Broken(what string) { s.BrokenTies = append(s.BrokenTies, what) }
 
 func (s *Suite) Finish() {
 	out := s.cfg.Out
@@ -313,6 +319,7 @@ func (s *Suite) Finish() {
 		"distribution":        s.Dist,
 		"samples":             s.samples,
 		"impl_failures":       s.ImplFails,
+		"broken_ties":         s.BrokenTies,
 		"shards":              shard,
 	}
 	mb, _ := json.MarshalIndent(meta, "", " ")
